@@ -7,7 +7,6 @@ package main
 import (
 	"fmt"
 	"go/token"
-	"go/types"
 	"strings"
 
 	"golang.org/x/tools/go/ssa"
@@ -16,11 +15,11 @@ import (
 func init() {
 	register(&propDef{
 		ID: "C02",
-		Explain: "Decided: (R1) in the copy traversal closure every path to a push effect either has no successors or has dispatched them and then " +
-			"waited, per successor, on the tracker's done channel in a select whose only alternative is ctx.Done() returning an error; " +
-			"(R2) a tracker channel is closed only in a deferred closure under err==nil of the enclosing named result; (R3) every error of a source read, " +
-			"destination existence check/write, callback or internal copy helper in copy.go/extendedcopy.go is propagated (tolerated idioms enumerated), " +
-			"syncutil.Go forwards the first error and returns context.Cause; (R4) no permit is held across the blocking dispatch/wait and the goroutine body " +
+		Explain: "Decided: (R1) in the copy traversal function (closure, method or plain function; role: claims the node with Tracker.TryCommit and dispatches with syncutil.Go, possibly through helpers) every feasible path to a push effect either has no successors or has dispatched them and then " +
+			"waited, per successor, on the tracker's done channel in a select whose only alternative is ctx.Done() returning an error — inline, or in in-module helpers summarised as 'a nil-error return implies every element was waited for'; " +
+			"(R2) a tracker channel is closed only in a deferred closure under err==nil of the enclosing error result, or explicitly where only `return nil` can follow; (R3) every error of a source read, " +
+			"destination existence check/write, callback or internal copy helper in copy.go/extendedcopy.go (and what the entry points statically reach) is propagated — directly, or through a helper that maps nil/tolerated to nil and anything else to non-nil; tolerated sentinels attach to the callback identity; " +
+			"syncutil.Go forwards the first error and returns context.Cause; (R4) no permit is held across the blocking dispatch/wait (typestate followed through helpers that receive the region) and the goroutine body " +
 			"always releases its permit. NOT decided (not applicable to static analysis): wall-clock boundedness, goroutine counts, that a re-run completes, faults inside user stores.",
 		Run:     runC02,
 		Mutants: c02Mutants,
@@ -50,39 +49,77 @@ func isPushEffect(c ssa.CallInstruction) bool {
 	return false
 }
 
-// traversalClosures: functions of the root package that both claim a node in
-// the tracker and dispatch successors with syncutil.Go (role-based anchor).
+// traversalClosures: the copy traversal function(s) of the root package
+// (role-based anchor): a function — closure, method or plain function — that
+// claims a node in the tracker (Tracker.TryCommit) and dispatches successors
+// with syncutil.Go, directly or through a helper it statically calls.  When
+// several functions qualify (e.g. an extracted helper that dispatches and
+// waits), the ones that are themselves handed to syncutil.Go as the task
+// function are the traversal.
 func traversalClosures(p *Prog) []*ssa.Function {
-	var out []*ssa.Function
+	goT := map[*ssa.Function]bool{}
+	for _, t := range c02GoTargets(p) {
+		goT[t] = true
+	}
+	var direct, tasks []*ssa.Function
 	for _, f := range p.FuncsOfPkg("") {
-		if len(CallsTo(f, nTryCommit)) > 0 && len(CallsTo(f, nGo)) > 0 {
-			out = append(out, f)
+		if len(CallsTo(f, nTryCommit)) == 0 {
+			continue
+		}
+		if len(CallsTo(f, nGo)) > 0 {
+			direct = append(direct, f)
+			if goT[f] {
+				tasks = append(tasks, f)
+			}
+		} else if goT[f] && c02ReachesStatic(f, 2, func(in ssa.Instruction) bool { return c02IsCallTo(in, nGo) }) {
+			tasks = append(tasks, f)
 		}
 	}
-	return out
+	if len(tasks) > 0 {
+		return tasks
+	}
+	return direct
 }
 
-// lenZeroEdges: edges on which len(s)==0 for s denoting the same value as S.
+// lenZeroEdges: edges on which len(s)==0 for s denoting the same value as S
+// (either operand order, any of the equivalent comparisons with 0 / 1).
 func lenZeroEdges(fn *ssa.Function, S ssa.Value) []Edge {
 	var out []Edge
+	isLen := func(v ssa.Value) bool {
+		ln, ok := v.(*ssa.Call)
+		return ok && CalleeName(ln) == "builtin:len" && SameValue(ln.Call.Args[0], S)
+	}
 	for _, i := range Ifs(fn) {
 		cond, t, f := ifEdges(i)
 		bo, ok := cond.(*ssa.BinOp)
 		if !ok {
 			continue
 		}
-		ln, ok := bo.X.(*ssa.Call)
-		if !ok || CalleeName(ln) != "builtin:len" || !SameValue(ln.Call.Args[0], S) {
+		x, y, op := bo.X, bo.Y, bo.Op
+		if !isLen(x) && isLen(y) { // k op len(s)  ->  len(s) op' k
+			x, y = y, x
+			switch op {
+			case token.LSS:
+				op = token.GTR
+			case token.GTR:
+				op = token.LSS
+			case token.LEQ:
+				op = token.GEQ
+			case token.GEQ:
+				op = token.LEQ
+			}
+		}
+		if !isLen(x) {
 			continue
 		}
-		k, ok := constInt(bo.Y)
+		k, ok := constInt(y)
 		if !ok {
 			continue
 		}
 		switch {
-		case bo.Op == token.NEQ && k == 0, bo.Op == token.GTR && k == 0, bo.Op == token.GEQ && k == 1:
+		case op == token.NEQ && k == 0, op == token.GTR && k == 0, op == token.GEQ && k == 1:
 			out = append(out, f)
-		case bo.Op == token.EQL && k == 0, bo.Op == token.LSS && k == 1, bo.Op == token.LEQ && k == 0:
+		case op == token.EQL && k == 0, op == token.LSS && k == 1, op == token.LEQ && k == 0:
 			out = append(out, t)
 		}
 	}
@@ -110,137 +147,124 @@ func c02R1R4(c *Ctx) {
 	c.Expect(R4, 3)
 	ts := traversalClosures(c.P)
 	if len(ts) == 0 {
-		c.LostAnchor(R1, "traversal closure (calls Tracker.TryCommit and syncutil.Go) in package ~")
+		c.LostAnchor(R1, "traversal function (claims the node with Tracker.TryCommit and dispatches with syncutil.Go) in package ~")
 		return
 	}
-	for _, T := range ts {
-		tn := FnName(T)
-		goCalls := CallsTo(T, nGo)
-		var pushes []ssa.CallInstruction
-		for _, call := range Calls(T, func(string) bool { return true }) {
-			if _, isDefer := call.(*ssa.Defer); isDefer {
+	for _, T0 := range ts {
+		// the function that dispatches the successors and pushes the node: the
+		// traversal function itself, or the helper it hands the claimed node to
+		T := c02DispatchBody(T0, 2)
+		if T == nil {
+			c.LostAnchor(R1, FnName(T0)+": the slice dispatched with syncutil.Go")
+			continue
+		}
+		if T != T0 {
+			bad := false
+			for _, p := range c02Pushes(T0, nil) {
+				if g, _ := c02CalleeOf(p); g == nil || c02DispatchBody(g, 1) != T {
+					c.Undecided(R1, FnName(T0)+"|push:"+CalleeName(p), p.Pos(), "the traversal function pushes outside the helper ("+FnName(T)+") that dispatches and waits for the successors; their order cannot be decided")
+					bad = true
+				}
+			}
+			if bad {
 				continue
 			}
-			if isPushEffect(call) && CalleeName(call) != nGo {
-				pushes = append(pushes, call)
+		}
+		tn := FnName(T)
+		slices := c02DispatchedSlices(T)
+		except := map[ssa.Instruction]bool{}
+		for _, S := range slices {
+			for _, d := range c02DispatchCalls(T, S, 0) {
+				except[d.(ssa.Instruction)] = true
 			}
 		}
+		pushes := c02Pushes(T, except)
 		if len(pushes) == 0 {
 			c.LostAnchor(R1, tn+": no push effect found")
 			continue
 		}
-		// successors slice: the variadic argument of the dispatch
-		var S ssa.Value
-		for _, g := range goCalls {
-			S = variadicArg(g)
-		}
-		var waitLoops []*Loop
-		for _, l := range Loops(T) {
-			if r, _, _, _, ok := l.RangeIndex(); ok && SameValue(r, S) {
-				waitLoops = append(waitLoops, l)
+		for _, S := range slices {
+			sites := c02SliceWaits(c, T, S, true, pushes, 0)
+			if len(sites) == 0 {
+				if l := c02UnknownWaitLoop(T, nil); l != nil {
+					c.Undecided(R1, tn+"|wait-loop", blockPos(l.Header), "a loop consults the tracker but is not a recognised loop over the dispatched successors (range, or index counting from 0 to len)")
+				} else {
+					c.Violation(R1, tn+"|wait-loop", T.Pos(), "no loop over the dispatched successors slice: parents do not wait for their successors")
+				}
+			}
+			cutR1 := newCut().Edges(lenZeroEdges(T, S)...)
+			isSite := map[ssa.Instruction]bool{}
+			okErrs := map[ssa.Value]bool{}
+			for _, st := range sites {
+				cutR1.Edges(st.Edges...)
+				cutR1.Instr(st.Instr)
+				isSite[st.At] = true
+				if st.Err != nil {
+					okErrs[st.Err] = true
+				}
+			}
+			for _, p := range pushes {
+				if isSite[p.(ssa.Instruction)] {
+					continue
+				}
+				ok := len(sites) > 0 && MustPass(p.(ssa.Instruction), cutR1)
+				if !ok && len(sites) > 0 {
+					// path-sensitive: `if err == nil { err = next() }` chains
+					var exceeded bool
+					if ok, exceeded = c02MustPassPS(T, p.(ssa.Instruction), cutR1, okErrs); exceeded {
+						c.Undecided(R1, tn+"|push:"+CalleeName(p), p.Pos(), "too many distinct paths to this push effect")
+						continue
+					}
+				}
+				c.Check(R1, tn+"|push:"+CalleeName(p), p.Pos(), ok,
+					ifelse(ok, "every path to the push takes the len(successors)==0 edge or leaves the wait for all successors on its success edge",
+						"a path reaches this push effect without waiting for the node's successors (neither the empty-successors edge nor the completed wait is on it)"))
+				for _, st := range sites {
+					if st.Loop != nil {
+						c.Check(R1, tn+"|push-outside-wait-loop:"+CalleeName(p), p.Pos(), !st.Loop.Contains(p.(ssa.Instruction)), "push effect inside the wait loop")
+					}
+				}
 			}
 		}
-		if len(waitLoops) == 0 {
-			c.Violation(R1, tn+"|wait-loop", T.Pos(), "no loop over the dispatched successors slice: parents do not wait for their successors")
-		}
-		cutR1 := newCut().Edges(lenZeroEdges(T, S)...)
-		for _, l := range waitLoops {
-			_, _, _, exit, _ := l.RangeIndex()
-			cutR1.Edges(exit)
-		}
-		for _, p := range pushes {
-			ok := len(waitLoops) > 0 && MustPass(p.(ssa.Instruction), cutR1)
-			c.Check(R1, tn+"|push:"+CalleeName(p), p.Pos(), ok,
-				ifelse(ok, "every path to the push takes the len(successors)==0 edge or the exit edge of the wait loop",
-					"a path reaches this push effect without waiting for the node's successors (neither the empty-successors edge nor the wait-loop exit is on it)"))
-			for _, l := range waitLoops {
-				c.Check(R1, tn+"|push-outside-wait-loop:"+CalleeName(p), p.Pos(), !l.Contains(p.(ssa.Instruction)), "push effect inside the wait loop")
-			}
-		}
-		// dispatch precedes the wait loop, with the same slice, recursion on the same fn, error propagated
-		for _, l := range waitLoops {
-			first := l.Header.Instrs[0]
-			ok := len(goCalls) > 0 && MustPass(first, newCut().Calls(goCalls))
-			c.Check(R1, tn+"|dispatch-before-wait", blockPos(l.Header), ok, "syncutil.Go(successors...) must precede the wait loop on every path")
-			c02WaitLoop(c, T, l, S, pushes)
-		}
-		for _, g := range goCalls {
-			r := ErrFlow(g, ErrFlowOpts{})
+		for _, g := range CallsTo(T, nGo) {
+			r := c02ErrFlow(g, ErrFlowOpts{}, 0)
 			c.Check(R1, tn+"|dispatch-error-returned", g.Pos(), r.OK, r.How+r.Detail)
 		}
 	}
-	// R4(b) for every function of the package that receives a *LimitedRegion
-	nfns := 0
-	for _, f := range c.P.FuncsOfPkg("") {
-		for _, prm := range f.Params {
-			if strings.HasSuffix(prm.Type().String(), "syncutil.LimitedRegion") {
-				nfns++
-				c02PermitTypestate(c, f)
-			}
+	// R4(b): the task functions handed to syncutil.Go start with the permit
+	// held; functions that receive the region from them are analysed with the
+	// state at the call.
+	pa := newC02PermitAnalysis(c)
+	for _, T := range c02GoTargets(c.P) {
+		if k := c02RegionParam(T); k >= 0 {
+			pa.run(T, k, c02Permit{s: c02Held}, 0)
 		}
 	}
-	if nfns < 2 {
-		c.LostAnchor(R4, "functions with a *syncutil.LimitedRegion parameter (expected the traversal closure and the ExtendedCopyGraph closure)")
+	for _, f := range c.P.FuncsOfPkg("") {
+		if c02RegionParam(f) >= 0 && !pa.Analysed[f] {
+			c.Undecided(R4, FnName(f)+"|region-function-not-reached", f.Pos(), "the function receives a *syncutil.LimitedRegion but is neither a task function passed to syncutil.Go nor called from one with the region")
+		}
+	}
+	if len(pa.Analysed) < 2 {
+		c.LostAnchor(R4, "task functions with a *syncutil.LimitedRegion parameter (expected the traversal function and the ExtendedCopyGraph per-root function)")
 	}
 }
 
+func c02RegionParam(f *ssa.Function) int {
+	for i, prm := range f.Params {
+		if isPtrToRegion(prm.Type()) {
+			return i
+		}
+	}
+	return -1
+}
+
 // c02PermitTypestate: in a function running under a limiter permit, every
-// blocking operation (a call that reaches syncutil.Go, a blocking select)
-// happens in the released state, and storage effects after a release need a
-// successful re-acquire.
+// blocking operation happens in the released state, and storage effects after
+// a release need a successful re-acquire (see c02PermitAnalysis).
 func c02PermitTypestate(c *Ctx, T *ssa.Function) {
-	const R4 = "C02.R4.permit-typestate"
-	tn := FnName(T)
-	ends, starts := CallsTo(T, nEnd), CallsTo(T, nStart)
-	var blockers []ssa.Instruction
-	for _, call := range Calls(T, func(string) bool { return true }) {
-		if _, isDefer := call.(*ssa.Defer); isDefer {
-			continue
-		}
-		if CalleeName(call) == nGo {
-			blockers = append(blockers, call.(ssa.Instruction))
-		} else if g := StaticCallee(call); g != nil && inModule(g) && reachesCall(g, 3, func(n string, _ ssa.CallInstruction) bool { return n == nGo }) {
-			blockers = append(blockers, call.(ssa.Instruction))
-		}
-	}
-	AllInstrs(T, func(in ssa.Instruction) {
-		if s, ok := in.(*ssa.Select); ok && s.Blocking {
-			blockers = append(blockers, s)
-		}
-	})
-	for _, b := range blockers {
-		ok := MustPass(b, newCut().Calls(ends))
-		for _, s := range starts {
-			if Reachable(s.(ssa.Instruction), b) && !MustPassBetween(s.(ssa.Instruction), b, newCut().Calls(ends)) {
-				ok = false
-			}
-		}
-		c.Check(R4, tn+"|released-at:"+instrLabel(b), b.Pos(), ok,
-			ifelse(ok, "region.End() precedes the blocking operation on every path with no Start in between",
-				"the limiter permit may still be held at this blocking operation (with Concurrency=1 the copy deadlocks)"))
-	}
-	// after an End, storage effects need a successful Start
-	var startOK []Edge
-	for _, s := range starts {
-		if e := ErrOf(s); e != nil {
-			ne, _, _ := NilTests(T, Aliases(e))
-			startOK = append(startOK, ne...)
-		}
-	}
-	isBlocker := map[ssa.Instruction]bool{}
-	for _, b := range blockers {
-		isBlocker[b] = true
-	}
-	for _, e := range ends {
-		for _, p := range storageEffects(T) {
-			if p == e || isBlocker[p.(ssa.Instruction)] || !Reachable(e.(ssa.Instruction), p.(ssa.Instruction)) {
-				continue
-			}
-			ok := MustPassBetween(e.(ssa.Instruction), p.(ssa.Instruction), newCut().Edges(startOK...))
-			c.Check(R4, tn+"|held-at:"+CalleeName(p), p.Pos(), ok,
-				ifelse(ok, "a successful region.Start() lies between region.End() and this storage effect",
-					"storage effect reachable after region.End() without re-acquiring the permit (concurrency bound exceeded)"))
-		}
+	if k := c02RegionParam(T); k >= 0 {
+		newC02PermitAnalysis(c).run(T, k, c02Permit{s: c02Held}, 0)
 	}
 }
 
@@ -278,148 +302,16 @@ func ifelse(b bool, x, y string) string {
 	return y
 }
 
-// c02WaitLoop checks the body of the wait loop.
+// c02WaitLoop checks the body of a wait loop over S (kept for callers that
+// have a loop in hand; the work is done by c02ElemWait).
 func c02WaitLoop(c *Ctx, T *ssa.Function, l *Loop, S ssa.Value, pushes []ssa.CallInstruction) {
-	const R1, R4 = "C02.R1.wait-before-push", "C02.R4.permit-typestate"
-	tn := FnName(T)
-	_, idx, body, _, _ := l.RangeIndex()
-	header := l.Header.Instrs[0]
-	// the element of this iteration
-	elem := map[ssa.Value]bool{}
-	for _, r := range *idx.Referrers() {
-		if ia, ok := r.(*ssa.IndexAddr); ok && SameValue(ia.X, S) {
-			for _, r2 := range *ia.Referrers() {
-				if ld, ok := r2.(*ssa.UnOp); ok && ld.Op == token.MUL {
-					for a := range Aliases(ld) {
-						elem[a] = true
-					}
-				}
-			}
+	for _, sl := range c02LoopsOver(T, S) {
+		if sl.L.Header == l.Header {
+			c02ElemWait(c, &c02Scope{fn: T, loop: sl.L, startB: sl.Body.To, header: sl.L.Header.Instrs[0]}, sl.Elem, pushes, 0)
+			return
 		}
 	}
-	var tcs []ssa.CallInstruction
-	for _, tc := range CallsTo(T, nTryCommit) {
-		if !l.Contains(tc.(ssa.Instruction)) {
-			continue
-		}
-		arg := tc.Common().Args[len(tc.Common().Args)-1]
-		okArg := false
-		for _, r := range Roots(arg) {
-			if elem[r] {
-				okArg = true
-			}
-		}
-		if okArg {
-			tcs = append(tcs, tc)
-		}
-	}
-	if !c.Check(R1, tn+"|wait-loop-channel", blockPos(l.Header), len(tcs) == 1,
-		ifelse(len(tcs) == 1, "the loop obtains the tracker channel of the current successor", "the wait loop does not obtain the tracker channel of the successor it iterates over")) {
-		return
-	}
-	tc := tcs[0]
-	ch := ResultOf(tc, 0)
-	committed := ResultOf(tc, 1)
-	if ch == nil {
-		c.Violation(R1, tn+"|wait-loop-select", tc.Pos(), "the done channel returned by TryCommit is discarded")
-		return
-	}
-	chAliases := Aliases(ch)
-	var sel *ssa.Select
-	AllInstrs(T, func(in ssa.Instruction) {
-		if s, ok := in.(*ssa.Select); ok && l.Contains(s) && selectRecvIndex(s, chAliases) >= 0 {
-			sel = s
-		}
-	})
-	var recvUnOp ssa.Instruction
-	if sel == nil { // plain receive <-done is a wait without cancellation
-		AllInstrs(T, func(in ssa.Instruction) {
-			if u, ok := in.(*ssa.UnOp); ok && u.Op == token.ARROW && chAliases[u.X] && l.Contains(u) {
-				recvUnOp = u
-			}
-		})
-	}
-	if sel == nil {
-		if recvUnOp != nil {
-			c.OK(R1, tn+"|wait-loop-select", recvUnOp.Pos(), "plain receive on the done channel")
-			c.Violation("C02.R4.cancellable-wait", tn+"|select", recvUnOp.Pos(), "the wait on the successor's done channel has no ctx.Done() alternative: a failed sibling leaves the parent blocked forever")
-			c.Check(R1, tn+"|wait-on-every-iteration", header.Pos(), !reach(body.To, 0, header, newCut().Instr(recvUnOp)), "every path through the loop body receives from the done channel")
-		} else {
-			c.Violation(R1, tn+"|wait-loop-select", header.Pos(), "the loop body never receives from the successor's done channel")
-		}
-		return
-	}
-	c.OK(R1, tn+"|wait-loop-select", sel.Pos(), "select receives from the successor's done channel")
-	// every path body-entry -> header passes the select
-	ok := !reach(body.To, 0, header, newCut().Instr(sel))
-	c.Check(R1, tn+"|wait-on-every-iteration", sel.Pos(), ok,
-		ifelse(ok, "every path through the loop body executes the select", "a path through the loop body reaches the next iteration without waiting on the done channel"))
-	// from the select, only the recv case continues the loop
-	k := selectRecvIndex(sel, chAliases)
-	if e, found := selectCaseEdge(sel, k); found {
-		ok := !reach(sel.Block(), instrIndex(sel)+1, header, newCut().Edges(e))
-		c.Check(R1, tn+"|only-done-continues", sel.Pos(), ok,
-			ifelse(ok, "only the done-channel case leads to the next iteration", "a select case other than the done channel continues the loop (the successor may not be finished)"))
-	} else {
-		c.Undecided(R1, tn+"|only-done-continues", sel.Pos(), "cannot resolve the select's case dispatch")
-	}
-	// R4(a): blocking select, other cases are ctx.Done()
-	okSel := sel.Blocking && len(sel.States) >= 2
-	for i, st := range sel.States {
-		if i == k {
-			continue
-		}
-		call, isCall := st.Chan.(*ssa.Call)
-		if !isCall || CalleeName(call) != "(context.Context).Done" || st.Dir != types.RecvOnly {
-			okSel = false
-		}
-	}
-	c.Check("C02.R4.cancellable-wait", tn+"|select", sel.Pos(), okSel,
-		ifelse(okSel, "the wait is a select over the done channel and ctx.Done()", "the wait has no ctx.Done() alternative (or is non-blocking): a failed sibling leaves the parent blocked, or the parent does not wait"))
-	// ctx.Done case must return a non-nil error, never reach pushes
-	for i := range sel.States {
-		if i == k {
-			continue
-		}
-		if e, found := selectCaseEdge(sel, i); found {
-			bad := false
-			for _, p := range pushes {
-				if reach(e.To, 0, p.(ssa.Instruction), nil) {
-					bad = true
-				}
-			}
-			errIdx := ErrResultIndex(T.Signature)
-			if a := findNilReturnFrom(T, e, errIdx, newCut(), map[ssa.Value]bool{}); a != nil {
-				if !isCtxErr(a.Val) {
-					bad = true
-				}
-			}
-			c.Check("C02.R4.cancellable-wait", tn+"|ctx-done-returns-error", sel.Pos(), !bad,
-				ifelse(!bad, "the ctx.Done() case returns ctx.Err() and reaches no push", "the ctx.Done() case can reach a push effect or return nil"))
-		}
-	}
-	// committed==true in the wait loop: nobody owns the node -> must return an error
-	if committed != nil {
-		te, _ := BoolTests(T, Aliases(committed))
-		if len(te) == 0 {
-			c.Violation(R1, tn+"|unowned-successor-is-error", tc.Pos(), "the `committed` result of TryCommit(successor) is not tested: if nobody claimed the successor the parent would wait forever or proceed")
-		}
-		for _, e := range te {
-			bad := reach(e.To, 0, header, nil)
-			for _, p := range pushes {
-				if reach(e.To, 0, p.(ssa.Instruction), nil) {
-					bad = true
-				}
-			}
-			if a := findNilReturnFrom(T, e, ErrResultIndex(T.Signature), newCut(), map[ssa.Value]bool{}); a != nil {
-				bad = true
-			}
-			c.Check(R1, tn+"|unowned-successor-is-error", tc.Pos(), !bad,
-				ifelse(!bad, "a successor nobody claimed makes the parent return an error", "when TryCommit(successor) commits (nobody copied it) the parent continues instead of failing"))
-		}
-	} else {
-		c.Violation(R1, tn+"|unowned-successor-is-error", tc.Pos(), "the `committed` result of TryCommit(successor) is discarded")
-	}
+	c.Undecided("C02.R1.wait-before-push", FnName(T)+"|wait-loop", blockPos(l.Header), "not a recognised loop over the successors slice")
 }
 
 func isCtxErr(v ssa.Value) bool {
@@ -490,6 +382,96 @@ func derivesFromCall(v ssa.Value, name string, idx int, depth int) bool {
 	return false
 }
 
+// c02FromTracker: v is a tracker channel (first result of TryCommit, or the
+// value loaded from the tracker's sync.Map), also when it reaches a closure as
+// an argument of its (deferred) call.
+func c02FromTracker(v ssa.Value, depth int) bool {
+	if depth > 3 {
+		return false
+	}
+	if derivesFromCall(v, nTryCommit, 0, 0) || derivesFromCall(v, "(*sync.Map).LoadOrStore", 0, 0) {
+		return true
+	}
+	for _, r := range Roots(v) {
+		prm, ok := r.(*ssa.Parameter)
+		if !ok || prm.Parent().Parent() == nil {
+			continue
+		}
+		f := prm.Parent()
+		idx := -1
+		for i, q := range f.Params {
+			if q == prm {
+				idx = i
+			}
+		}
+		found := false
+		AllInstrs(f.Parent(), func(in ssa.Instruction) {
+			call, ok := in.(ssa.CallInstruction)
+			if !ok {
+				return
+			}
+			if mc, ok := call.Common().Value.(*ssa.MakeClosure); ok && mc.Fn == f && idx < len(call.Common().Args) {
+				if c02FromTracker(call.Common().Args[idx], depth+1) {
+					found = true
+				}
+			}
+		})
+		if found {
+			return true
+		}
+	}
+	return false
+}
+
+// c02AfterCloseOK (shape B): after the close, the function can only return a
+// nil error and performs no fallible work.
+func c02AfterCloseOK(f *ssa.Function, cl ssa.Instruction) (bool, string) {
+	errIdx := ErrResultIndex(f.Signature)
+	if errIdx < 0 {
+		return false, "the closing function has no error result"
+	}
+	type state struct{ b, pred *ssa.BasicBlock }
+	visited := map[state]bool{}
+	why := ""
+	var walk func(b *ssa.BasicBlock, i int, pred *ssa.BasicBlock)
+	walk = func(b *ssa.BasicBlock, i int, pred *ssa.BasicBlock) {
+		if why != "" {
+			return
+		}
+		if i == 0 {
+			if visited[state{b, pred}] {
+				return
+			}
+			visited[state{b, pred}] = true
+		}
+		for ; i < len(b.Instrs); i++ {
+			switch x := b.Instrs[i].(type) {
+			case *ssa.Call:
+				if _, isBuiltin := x.Call.Value.(*ssa.Builtin); isBuiltin {
+					continue
+				}
+				if isPushEffect(x) || (x.Call.Signature() != nil && ErrResultIndex(x.Call.Signature()) >= 0) {
+					why = "the call of " + CalleeName(x) + " can still fail after the done channel was closed"
+					return
+				}
+			case *ssa.Return:
+				for _, val := range resolveAt(x.Results[errIdx], b, pred, x, map[ssa.Value]bool{}) {
+					if ErrNilStatus(val, 0) != IsNil {
+						why = "a return after the close yields " + describe(val)
+						return
+					}
+				}
+				return
+			}
+		}
+		for _, sc := range b.Succs {
+			walk(sc, 0, b)
+		}
+	}
+	walk(cl.Block(), instrIndex(cl)+1, nil)
+	return why == "", why
+}
+
 func c02R2(c *Ctx) {
 	const R2 = "C02.R2.done-closed-only-on-success"
 	c.Expect(R2, 1)
@@ -498,43 +480,72 @@ func c02R2(c *Ctx) {
 		for _, f := range c.P.FuncsOfPkg(pkg) {
 			for _, cl := range CallsTo(f, "builtin:close") {
 				arg := cl.Common().Args[0]
-				if !derivesFromCall(arg, nTryCommit, 0, 0) && !derivesFromCall(arg, "(*sync.Map).LoadOrStore", 0, 0) {
+				if !c02FromTracker(arg, 0) {
 					continue
 				}
 				found++
 				key := FnName(f) + "|close"
-				// shape A: deferred closure guarding on the enclosing named error result == nil
+				_, closeDeferred := cl.(*ssa.Defer)
 				par := f.Parent()
-				if par == nil {
-					c.Undecided(R2, key, cl.Pos(), "tracker channel closed outside a deferred closure: shape not recognised")
-					continue
-				}
 				deferred := false
-				AllInstrs(par, func(in ssa.Instruction) {
-					if d, ok := in.(*ssa.Defer); ok {
-						if mc, ok := d.Call.Value.(*ssa.MakeClosure); ok && mc.Fn == f {
-							deferred = true
+				if par != nil {
+					AllInstrs(par, func(in ssa.Instruction) {
+						if d, ok := in.(*ssa.Defer); ok {
+							if mc, ok := d.Call.Value.(*ssa.MakeClosure); ok && mc.Fn == f {
+								deferred = true
+							}
 						}
-					}
-					if mc, ok := in.(*ssa.MakeClosure); ok && mc.Fn == f {
-						for _, r := range *mc.Referrers() {
-							if _, isDefer := r.(*ssa.Defer); !isDefer {
-								if _, isDbg := r.(*ssa.DebugRef); !isDbg {
-									deferred = false
+					})
+					AllInstrs(par, func(in ssa.Instruction) {
+						if mc, ok := in.(*ssa.MakeClosure); ok && mc.Fn == f {
+							for _, r := range *mc.Referrers() {
+								if _, isDefer := r.(*ssa.Defer); !isDefer {
+									if _, isDbg := r.(*ssa.DebugRef); !isDbg {
+										deferred = false
+									}
 								}
 							}
 						}
+					})
+				}
+				if !deferred {
+					// shape B: explicit close on the success path of the owning function
+					if closeDeferred {
+						c.Violation(R2, key, cl.Pos(), "the tracker's done channel is closed by an unconditional defer: it is closed although the node's copy failed (a waiting parent would then push with a missing successor)")
+						continue
 					}
-				})
+					ok, why := c02AfterCloseOK(f, cl.(ssa.Instruction))
+					c.Check(R2, key, cl.Pos(), ok,
+						ifelse(ok, "after close(done) the function only returns nil and does no fallible work",
+							"the tracker's done channel can be closed although the node's copy failed (a waiting parent would then push with a missing successor): "+why))
+					continue
+				}
+				// shape A: deferred closure guarding on the enclosing function's error result == nil.
 				// the error cell of the parent: the Alloc its Returns load from
 				errIdx := ErrResultIndex(par.Signature)
 				errCells := map[ssa.Value]bool{}
+				allFromCell := errIdx >= 0
 				if errIdx >= 0 {
 					for _, r := range Returns(par) {
+						// only returns that run the deferred closure matter
+						runs := false
+						AllInstrs(par, func(in ssa.Instruction) {
+							if d, ok := in.(*ssa.Defer); ok {
+								if mc, ok := d.Call.Value.(*ssa.MakeClosure); ok && mc.Fn == f && Reachable(d, r) {
+									runs = true
+								}
+							}
+						})
 						if a := cellOf(r.Results[errIdx]); a != nil {
 							errCells[a] = true
+						} else if runs {
+							allFromCell = false
 						}
 					}
+				}
+				if len(errCells) != 1 || !allFromCell {
+					c.Undecided(R2, key, cl.Pos(), "the deferred closure cannot observe the enclosing function's error result (the result is not a single variable that every return after the defer yields)")
+					continue
 				}
 				errLoads := map[ssa.Value]bool{}
 				for _, fv := range f.FreeVars {
@@ -554,7 +565,7 @@ func c02R2(c *Ctx) {
 					}
 				}
 				nilE, _, _ := NilTests(f, errLoads)
-				ok := deferred && len(nilE) > 0 && MustPass(cl.(ssa.Instruction), newCut().Edges(nilE...))
+				ok := len(nilE) > 0 && MustPass(cl.(ssa.Instruction), newCut().Edges(nilE...)) && !closeDeferred
 				c.Check(R2, key, cl.Pos(), ok,
 					ifelse(ok, "close(done) runs in a deferred closure, only on the edge where the enclosing function's error result is nil",
 						"the tracker's done channel can be closed although the node's copy failed (a waiting parent would then push with a missing successor)"))
@@ -587,13 +598,13 @@ func c02Monitored(call ssa.CallInstruction) (bool, []string) {
 	case n == "(~/registry.Mounter).Mount":
 		return true, []string{"local:skip_source"}
 	case n == "field:~.CopyGraphOptions.PreCopy":
-		return true, []string{"~.SkipNode"}
+		return true, nil // the SkipNode tolerance attaches to the callback identity (c02CallbackTolerance)
 	case strings.HasPrefix(n, "field:~."):
 		return true, nil
 	case strings.HasPrefix(n, "(~/content."), strings.HasPrefix(n, "(~/registry."), strings.HasPrefix(n, "(*~/internal/cas."), strings.HasPrefix(n, "(*~/internal/registryutil."):
 		return true, nil
-	case strings.HasPrefix(n, "dyn:freevar:"), strings.HasPrefix(n, "dyn:local:"):
-		// captured previous callbacks (preCopy, postCopy, onCopySkipped, mapRoot, fp)
+	case strings.HasPrefix(n, "dyn:freevar:"), strings.HasPrefix(n, "dyn:local:"), strings.HasPrefix(n, "dyn:param:"):
+		// captured previous callbacks (preCopy, postCopy, onCopySkipped, mapRoot, fp); a callback received as an argument
 		return true, nil
 	}
 	if g := StaticCallee(call); g != nil && inModule(g) {
@@ -605,15 +616,68 @@ func c02Monitored(call ssa.CallInstruction) (bool, []string) {
 	return false, nil
 }
 
+// c02CallbackTolerance: the sentinels a callback may return to mean "no
+// failure", by the struct field the callback was loaded from.
+var c02CallbackTolerance = map[string][]string{
+	"field:~.CopyGraphOptions.PreCopy": {"~.SkipNode"},
+}
+
+// c02R3Funcs: the functions whose calls are monitored — everything declared
+// in copy.go / extendedcopy.go, plus every function of the root package
+// reachable from the four entry points (so that moving a helper to another
+// file does not drop it).
+func c02R3Funcs(p *Prog) []*ssa.Function {
+	files := map[string]bool{"copy.go": true, "extendedcopy.go": true}
+	in := map[*ssa.Function]bool{}
+	var work []*ssa.Function
+	push := func(f *ssa.Function) {
+		if f == nil {
+			return
+		}
+		f, _ = c02Unwrap(f)
+		if in[f] || len(f.Blocks) == 0 || fnPkgPath(f) != Mod {
+			return
+		}
+		in[f] = true
+		work = append(work, f)
+	}
+	for _, n := range []string{"Copy", "CopyGraph", "ExtendedCopy", "ExtendedCopyGraph"} {
+		push(p.Fn("", n))
+	}
+	for len(work) > 0 {
+		f := work[len(work)-1]
+		work = work[:len(work)-1]
+		AllInstrs(f, func(ins ssa.Instruction) {
+			for _, op := range ins.Operands(nil) {
+				if op == nil || *op == nil {
+					continue
+				}
+				switch x := (*op).(type) {
+				case *ssa.Function:
+					push(x)
+				case *ssa.MakeClosure:
+					push(x.Fn.(*ssa.Function))
+				}
+			}
+			if mc, ok := ins.(*ssa.MakeClosure); ok {
+				push(mc.Fn.(*ssa.Function))
+			}
+		})
+	}
+	var out []*ssa.Function
+	for _, f := range p.FuncsOfPkg("") {
+		file := p.Fset.Position(f.Pos()).Filename
+		if files[file[strings.LastIndex(file, "/")+1:]] || in[f] {
+			out = append(out, f)
+		}
+	}
+	return out
+}
+
 func c02R3(c *Ctx) {
 	const R3 = "C02.R3.error-surfacing"
 	c.Expect(R3, 30)
-	files := map[string]bool{"copy.go": true, "extendedcopy.go": true}
-	for _, f := range c.P.FuncsOfPkg("") {
-		file := c.P.Fset.Position(f.Pos()).Filename
-		if !files[file[strings.LastIndex(file, "/")+1:]] {
-			continue
-		}
+	for _, f := range c02R3Funcs(c.P) {
 		seen := map[string]int{}
 		for _, call := range Calls(f, func(string) bool { return true }) {
 			mon, tol := c02Monitored(call)
@@ -627,13 +691,39 @@ func c02R3(c *Ctx) {
 			seen[n]++
 			key := fmt.Sprintf("%s|%s#%d", FnName(f), n, seen[n])
 			if n == "(~/registry.Mounter).Mount" {
-				// the local sentinel is the errors.New in the same function
-				tol = nil
-				for _, e := range CallsTo(f, "errors.New") {
-					tol = append(tol, "local:"+localName(e.Value()))
+				// tolerated: the sentinel(s) that the getContent callback handed to
+				// Mount returns to say "skip this source" (a local errors.New or a
+				// package-level variable); failing that, the errors.New of the function
+				tol = c02CallbackSentinels(call)
+				if len(tol) == 0 {
+					for _, e := range CallsTo(f, "errors.New") {
+						tol = append(tol, "local:"+localName(e.Value()))
+					}
 				}
 			}
-			r := ErrFlow(call, ErrFlowOpts{Tolerated: tol})
+			// a callback keeps its tolerated sentinels wherever it is finally
+			// invoked: through a nil-safe helper that receives the field value,
+			// a method of the options struct, a parameter of a helper
+			if ids := c02ErrIdentities(c.P, call, nil, 0); len(ids) > 0 {
+				var common []string
+				first, all := true, true
+				for id := range ids {
+					t, ok := c02CallbackTolerance[id]
+					if !ok {
+						all = false
+						break
+					}
+					if first {
+						common, first = t, false
+					} else if !sameStrings(sortedCopy(common), sortedCopy(t)) {
+						all = false
+					}
+				}
+				if all {
+					tol = append(tol, common...)
+				}
+			}
+			r := c02ErrFlow(call, ErrFlowOpts{Tolerated: tol}, 0)
 			pos := call.Pos()
 			if !r.OK && r.At.IsValid() {
 				pos = r.At
@@ -683,49 +773,59 @@ func c02Go(c *Ctx) {
 			}
 		}
 		c.Check(R, gn+"|waits-for-all", G.Pos(), okWait, "every return is preceded by errgroup.Wait()")
-		// the goroutine body: fn's error is passed to cancel and returned; lr.End() on every exit
-		var body *ssa.Function
-		for _, a := range Anons(G) {
-			if len(Calls(a, func(n string) bool { return strings.HasPrefix(n, "dyn:freevar:") || strings.HasPrefix(n, "dyn:param:") })) > 0 &&
-				ErrResultIndex(a.Signature) == 0 && len(a.Params) == 0 {
-				body = a
-			}
-		}
-		if body == nil {
-			c.LostAnchor(R, gn+": goroutine body closure")
-			continue
-		}
-		for _, call := range Calls(body, func(n string) bool { return strings.HasPrefix(n, "dyn:freevar:") || strings.HasPrefix(n, "dyn:param:") }) {
-			if ErrResultIndex(call.Common().Signature()) < 0 {
-				continue
-			}
-			r := ErrFlow(call, ErrFlowOpts{})
-			e := ErrOf(call)
-			okCancel := e != nil && flowsToCancel(Aliases(e))
-			c.Check(R, gn+"|body-forwards-error", call.Pos(), r.OK && okCancel,
-				ifelse(r.OK && okCancel, "fn's error is handed to cancel(err) and returned to the errgroup", "fn's error is not both recorded with cancel(err) and returned: "+r.Detail))
-		}
-		ends := CallsTo(body, nEnd)
-		okEnd := len(ends) > 0
-		for _, r := range Returns(body) {
-			if !MustPass(r, newCut().Calls(ends)) {
-				okEnd = false
-			}
-		}
-		c.Check("C02.R4.permit-typestate", gn+"|body-releases-permit", body.Pos(), okEnd,
-			ifelse(okEnd, "lr.End() runs (deferred or explicit) on every exit of the goroutine body", "a path leaves the goroutine body without releasing its permit (later copies starve)"))
-		// region.Start() precedes eg.Go and its failure cancels
-		starts := CallsTo(G, nStart)
-		egGo := CallsTo(G, "(*golang.org/x/sync/errgroup.Group).Go")
-		okStart := len(starts) > 0 && len(egGo) > 0
-		for _, g := range egGo {
-			var okEdges []Edge
-			for _, s := range starts {
-				if e := ErrOf(s); e != nil {
-					ne, _, _ := NilTests(G, Aliases(e))
-					okEdges = append(okEdges, ne...)
+		// the goroutine body (whatever is handed to errgroup.Group.Go: a closure,
+		// the result of a closure factory, a method value): the task function's
+		// error is returned to the errgroup (and recorded as the cancel cause,
+		// there or after eg.Wait()); lr.End() on every exit
+		egGoCalls := CallsTo(G, "(*golang.org/x/sync/errgroup.Group).Go")
+		var bodies []*ssa.Function
+		for _, g := range egGoCalls {
+			if args := g.Common().Args; len(args) == 2 {
+				for _, t := range c02FuncTargets(args[1], 0) {
+					if len(t.Fn.Blocks) > 0 {
+						bodies = append(bodies, t.Fn)
+					}
 				}
 			}
+		}
+		if len(bodies) == 0 {
+			c.LostAnchor(R, gn+": goroutine body (the function handed to errgroup.Group.Go)")
+			continue
+		}
+		// eg.Wait()'s error recorded as the cause
+		waitCancelled := false
+		for _, w := range waits {
+			if e := ErrOf(w); e != nil && flowsToCancel(Aliases(e)) {
+				waitCancelled = true
+			}
+		}
+		for _, body := range bodies {
+			ucs := c02TaskCalls(body, nil, 0)
+			if len(ucs) == 0 {
+				c.LostAnchor(R, gn+": call of the task function (a dynamic call receiving the LimitedRegion) in the goroutine body")
+				continue
+			}
+			for _, uc := range ucs {
+				r := c02ErrFlow(uc.call, ErrFlowOpts{}, 0)
+				for _, up := range uc.chain {
+					if r.OK {
+						r = c02ErrFlow(up, ErrFlowOpts{}, 0)
+					}
+				}
+				e := ErrOf(uc.call)
+				okCancel := e != nil && (flowsToCancel(Aliases(e)) || waitCancelled)
+				c.Check(R, gn+"|body-forwards-error", uc.call.Pos(), r.OK && okCancel,
+					ifelse(r.OK && okCancel, "fn's error is returned to the errgroup and recorded with cancel(err)", "fn's error is not both recorded with cancel(err) and returned: "+r.Detail))
+			}
+			okEnd := c02EndsOnEveryExit(body, 0)
+			c.Check("C02.R4.permit-typestate", gn+"|body-releases-permit", body.Pos(), okEnd,
+				ifelse(okEnd, "lr.End() runs (deferred or explicit, possibly in a helper receiving the region) on every exit of the goroutine body", "a path leaves the goroutine body without releasing its permit (later copies starve)"))
+		}
+		// a successful region.Start() (direct, or inside a helper that returns nil
+		// only after it) precedes eg.Go
+		okEdges := c02AcquireEdges(G)
+		okStart := len(okEdges) > 0 && len(egGoCalls) > 0
+		for _, g := range egGoCalls {
 			if !MustPass(g.(ssa.Instruction), newCut().Edges(okEdges...)) {
 				okStart = false
 			}
